@@ -492,6 +492,191 @@ fn undecodable_part(tier: Tier, st: &mut Stats) {
     }
 }
 
+
+// ------------------------------------------------------------------ state vs change stamp
+//
+// The reply to GetState carries the keyspace's change stamp next to the state; the poller
+// remembers the stamp and does not ask again while PollKeyspace reports the same one. So the
+// stamp names "the moment it answered": whenever the stamp of the reply equals the stamp the
+// node advertises once everything is quiet, the state of the reply must be the node's state.
+// Engine E2: a GetState request and one writer on the same keyspace, every interleaving of
+// their await points, background tasks (the keyspace actor) stepped one poll at a time.
+
+#[derive(Clone, Copy, Debug, PartialEq, Eq, Hash)]
+enum Writer {
+    Put,
+    Del,
+    RpcPut,
+    PutMany,
+}
+
+#[derive(Clone, Debug, PartialEq, Eq, Default)]
+struct StampObs {
+    reply_stamp: Option<HLCTimestamp>,
+    final_stamp: Option<HLCTimestamp>,
+    reply_state: (Vec<(u64, HLCTimestamp)>, Vec<(u64, HLCTimestamp)>),
+    final_state: (Vec<(u64, HLCTimestamp)>, Vec<(u64, HLCTimestamp)>),
+    errors: Vec<String>,
+}
+
+fn live_and_dead(s: &Set2) -> (Vec<(u64, HLCTimestamp)>, Vec<(u64, HLCTimestamp)>) {
+    let snap = s.verif_snapshot();
+    let mut live: Vec<(u64, HLCTimestamp)> = snap.entries.iter().map(|e| (e.0, e.1)).collect();
+    let mut dead: Vec<(u64, HLCTimestamp)> = snap.dead.iter().map(|e| (e.0, e.1)).collect();
+    live.sort();
+    dead.sort();
+    (live, dead)
+}
+
+const STAMP_KS: &str = "stamped";
+
+fn stamp_run_one(writers: &[Writer], prefix: &[usize], fine: bool) -> (vkit::e2::Run, StampObs) {
+    use datacake_eventual_consistency::Document;
+    use datacake_node::Consistency;
+    use vkit::e2::{self, Client, DriveCfg};
+    let body = async {
+        reset_seams();
+        let _wall = Wall::start();
+        let node = Node::start(1, "dc", Arc::new(MemStore::default())).await;
+        node.set_membership(&[(1, "dc".into())]).await;
+        node.store.put(STAMP_KS, 1, vec![1], Consistency::None).await.expect("pre put");
+        e2::settle().await;
+        let peer_clock = Clock::new(2);
+        let reply = std::rc::Rc::new(std::cell::RefCell::new(None::<(HLCTimestamp, Set2)>));
+        let errors = std::rc::Rc::new(std::cell::RefCell::new(Vec::<String>::new()));
+        let mut clients: Vec<Option<Client>> = Vec::new();
+        {
+            let reply = reply.clone();
+            let errors = errors.clone();
+            let peer_clock = peer_clock.clone();
+            clients.push(Some(Box::pin(async move {
+                let mut c = ec::ReplicationClient::<MemStore>::new(peer_clock, Channel::connect(node_addr(1)));
+                match c.get_state(STAMP_KS).await {
+                    Ok(r) => *reply.borrow_mut() = Some(r),
+                    Err(e) => errors.borrow_mut().push(format!("get_state: {e:?}")),
+                }
+            }) as Client));
+        }
+        for (i, w) in writers.iter().enumerate() {
+            let id = 2 + i as u64;
+            let store = node.store.clone();
+            let errors = errors.clone();
+            let peer_clock = peer_clock.clone();
+            let w = *w;
+            clients.push(Some(Box::pin(async move {
+                let res = match w {
+                    Writer::Put => store.put(STAMP_KS, id, vec![id as u8], Consistency::None).await.map_err(|e| e.to_string()),
+                    Writer::Del => store.del(STAMP_KS, 1, Consistency::None).await.map_err(|e| e.to_string()),
+                    Writer::PutMany => store
+                        .put_many(STAMP_KS, vec![(id, vec![id as u8]), (id + 10, vec![0])], Consistency::None)
+                        .await
+                        .map_err(|e| e.to_string()),
+                    Writer::RpcPut => {
+                        let mut c = ec::ConsistencyClient::<MemStore>::new(peer_clock.clone(), Channel::connect(node_addr(1)));
+                        let doc = Document::new(id, peer_clock.get_time().await, vec![id as u8]);
+                        c.put(STAMP_KS, doc, 2, node_addr(2)).await.map_err(|e| e.to_string())
+                    },
+                };
+                if let Err(e) = res {
+                    errors.borrow_mut().push(format!("{w:?}: {e}"));
+                }
+            }) as Client));
+        }
+        let run = e2::drive(clients, prefix, &DriveCfg { interleave_background: fine, ..DriveCfg::default() }).await;
+        e2::settle().await;
+        let mut obs = StampObs::default();
+        obs.errors = errors.borrow().clone();
+        if let Some((stamp, set)) = reply.borrow().as_ref() {
+            obs.reply_stamp = Some(*stamp);
+            obs.reply_state = live_and_dead(set);
+        }
+        // what the node advertises to pollers once everything is quiet, through the real service
+        let mut c = ec::ReplicationClient::<MemStore>::new(peer_clock.clone(), Channel::connect(node_addr(1)));
+        match c.poll_keyspace().await {
+            Ok(m) => obs.final_stamp = m.get(STAMP_KS).copied(),
+            Err(e) => obs.errors.push(format!("poll_keyspace: {e:?}")),
+        }
+        match node.set_of(STAMP_KS).await {
+            Ok(set) => obs.final_state = live_and_dead(&set),
+            Err(e) => obs.errors.push(e),
+        }
+        (run, obs)
+    };
+    if fine {
+        vkit::e2::block_on_fresh_fine(body)
+    } else {
+        vkit::e2::block_on_fresh(body)
+    }
+}
+
+fn stamp_case(writers: &[Writer], run: &vkit::e2::Run, fine: bool) -> J {
+    J::obj()
+        .set("stamp_block_writers", writers.iter().map(|w| format!("{w:?}")).collect::<Vec<_>>())
+        .set("schedule", run.choices.clone())
+        .set("fine_grained", fine)
+}
+
+fn stamp_judge(writers: &[Writer], fine: bool, run: &vkit::e2::Run, obs: &StampObs, st: &mut Stats) {
+    st.inc("stamp_executions");
+    let rank = (run.deviations() as u64) << 32 | run.choices.len() as u64;
+    let case = || stamp_case(writers, run, fine);
+    if run.deadlocked {
+        st.violation_ranked("state-request-never-finished", rank, || "tasks never finished".to_string(), case);
+        return;
+    }
+    if !obs.errors.is_empty() {
+        st.violation_ranked("state-request-failed-during-a-write", rank, || format!("{:?}", obs.errors), case);
+        return;
+    }
+    if obs.reply_stamp.is_some() && obs.reply_stamp == obs.final_stamp {
+        st.inc("stamp_replies_current");
+        if obs.reply_state != obs.final_state {
+            st.violation_ranked(
+                "state-older-than-the-change-stamp-sent-with-it",
+                rank,
+                || {
+                    format!(
+                        "the reply carries change stamp {} — the one the node still advertises — but its state (live, tombstones) {:?} is not the node's state {:?}",
+                        obs.reply_stamp.unwrap(),
+                        obs.reply_state,
+                        obs.final_state
+                    )
+                },
+                case,
+            );
+        }
+    } else {
+        st.inc("stamp_replies_superseded");
+    }
+    st.seen("stamp_schedules", fp128(&(writers, fine, &run.choices)));
+    st.seen("stamp_outcomes", fp128(&(writers, obs.reply_stamp == obs.final_stamp, &obs.reply_state)));
+}
+
+fn stamp_block(tier: Tier, total: &mut Stats) -> bool {
+    use vkit::e2::{explore, ExploreCfg};
+    let mut capped = false;
+    let mut nondet = 0;
+    let singles = [Writer::Put, Writer::Del, Writer::RpcPut, Writer::PutMany];
+    let mut scenarios: Vec<(Vec<Writer>, bool, Option<usize>)> = Vec::new();
+    for w in singles {
+        scenarios.push((vec![w], false, None));
+        scenarios.push((vec![w], true, Some(tier.pick(3, 5))));
+    }
+    scenarios.push((vec![Writer::Put, Writer::Del], false, Some(tier.pick(3, 6))));
+    scenarios.push((vec![Writer::Put, Writer::RpcPut], true, Some(tier.pick(2, 4))));
+    for (writers, fine, bound) in &scenarios {
+        let cfg = ExploreCfg { max_deviations: *bound, max_executions: 2_000_000, determinism_check_every: 53 };
+        let (st, sum) = explore(&cfg, |p| stamp_run_one(writers, p, *fine), |st, run, obs| stamp_judge(writers, *fine, run, obs, st));
+        total.merge(st);
+        capped |= sum.capped;
+        nondet += sum.nondeterministic + sum.prefix_misfits;
+    }
+    if nondet > 0 {
+        total.violation("harness/stamp-block-nondeterministic", || format!("{nondet} executions did not reproduce"), || J::obj());
+    }
+    capped
+}
+
 pub fn run(tier: Tier) -> i32 {
     let mut report = Report::new("C19", tier, "exploration");
     let mut total = Stats::default();
@@ -521,6 +706,12 @@ pub fn run(tier: Tier) -> i32 {
     );
     total.merge(st);
 
+    let stamp_capped = stamp_block(tier, &mut total);
+    let stamp_execs = total.get("stamp_executions");
+    let stamp_current = total.get("stamp_replies_current");
+    let stamp_superseded = total.get("stamp_replies_superseded");
+    let stamp_schedules = total.distinct_count("stamp_schedules");
+
     let transfers = total.get("transfers");
     let grids = total.get("probe_grids");
     let distinct = total.distinct_count("transferred_states");
@@ -540,6 +731,12 @@ pub fn run(tier: Tier) -> i32 {
     report.cover("dynamic_transitions", sum.transitions);
     report.cover("dynamic_depth", sum.depth_reached);
     report.cover("dynamic_frontier_left_unexplored", sum.frontier_left);
+    report.cover("stamp_block_executions", stamp_execs);
+    report.cover("stamp_block_schedules", stamp_schedules);
+    report.cover("stamp_block_replies_with_current_stamp", stamp_current);
+    report.cover("stamp_block_replies_with_superseded_stamp", stamp_superseded);
+    report.cover("stamp_block_capped", stamp_capped);
+    report.guard(stamp_current > 10 && stamp_superseded > 10, "stamp block: the write never lands on both sides of the state request");
     report.cover("exhaustive", true);
     report.guard(distinct > 500, "fewer than 500 distinct states transferred");
     report.guard(report.cover_get("undecodable_blobs") > 20, "fewer than 20 undecodable blobs were tried");
@@ -554,6 +751,34 @@ pub fn replay(case: &J) -> i32 {
         let verdict = probe_blob(&unhex(h));
         println!("blob served by the fake peer: {verdict}");
         return !(verdict == "undecodable-refused" || verdict == "decodable-same") as i32;
+    }
+    if let Some(ws) = case.get("stamp_block_writers").and_then(|v| v.as_arr()) {
+        let writers: Vec<Writer> = ws
+            .iter()
+            .filter_map(|w| match w.as_str()? {
+                "Put" => Some(Writer::Put),
+                "Del" => Some(Writer::Del),
+                "RpcPut" => Some(Writer::RpcPut),
+                "PutMany" => Some(Writer::PutMany),
+                _ => None,
+            })
+            .collect();
+        let schedule: Vec<usize> =
+            case.get("schedule").and_then(|v| v.as_arr()).unwrap_or(&[]).iter().filter_map(|v| v.as_u64().map(|x| x as usize)).collect();
+        let fine = case.get("fine_grained").and_then(|v| v.as_bool()).unwrap_or(false);
+        let (run, obs) = stamp_run_one(&writers, &schedule, fine);
+        let (run2, obs2) = stamp_run_one(&writers, &schedule, fine);
+        if run != run2 || obs != obs2 {
+            eprintln!("replay is not deterministic");
+            return 2;
+        }
+        println!("ran: {:?}\n{obs:#?}", run.ran);
+        let mut st = Stats::default();
+        stamp_judge(&writers, fine, &run, &obs, &mut st);
+        for f in &st.found {
+            println!("{}: {}", f.key, f.what);
+        }
+        return (!st.found.is_empty()) as i32;
     }
     if case.get("requests").is_some() {
         let pool = c02::pool();
